@@ -410,7 +410,7 @@ Proof.
     assert (Hnr : forall k, ~ In (k, o) (rmap s)). { intros k H. destruct (l_r s L k o H) as (c' & Hc' & _ & _ & _ & NS). rewrite Hc in Hc'. injection Hc' as <-. contradiction. }
     assert (Hk1 : forall k, In (k, o) (smap s) -> k = r_mid r). { intros k H. destruct (l_s s L k o H) as (c' & Hc' & M' & _). congruence. }
     rewrite Hc, F8.
-    destruct (r_kind r) eqn:Ek; [| | | |intros H; discriminate H]; intros _.
+    destruct (r_kind r) eqn:Ek; [| | | |destruct (fix5 (fx s)); [intros _; apply (Lin_same s); try reflexivity; exact L|intros H; discriminate H]]; intros _.
     all: destruct (o_rx c) eqn:Erx; cbn [negb].
     (* six cases keep or drop the smap entry; each is one application of Lin_upd1 *)
     7: apply (Lin_upd1 s _ o c (fun c0 => close_chan (c0 <| o_items ::= fun l => l ++ [r] |>))); [exact L|exact Hc|..].
